@@ -15,6 +15,7 @@ inductive Sk where
   | ifs (t : List Sk)                   -- if without else
   | ife (t e : List Sk)                 -- if … else
   | loop (withInit : Bool) (b : List Sk)   -- `repeat with v = a to b` starts with the separate statement `set v = a`
+  | tell (b : List Sk)                  -- a tell block: one statement of the list it stands in, its statements a list of their own
   deriving Repr, Inhabited
 
 mutual
@@ -28,7 +29,7 @@ def skOf : Nat → Stmt → (List Sk × Nat)
   | n, .repeatWhile _ b => let (b', n1) := skOfL n b; ([.loop false b'], n1)
   | n, .repeatWith _ _ _ _ b => let (b', n1) := skOfL n b; ([.loop true b'], n1)
   | n, .repeatIn _ _ b => let (b', n1) := skOfL n b; ([.loop false b'], n1)
-  | n, .tell _ b => skOfL n b
+  | n, .tell _ b => let (b', n1) := skOfL n b; ([.tell b'], n1)
   | n, _ => ([.s], n)
 def skOfL : Nat → List Stmt → (List Sk × Nat)
   | n, [] => ([], n)
@@ -46,6 +47,7 @@ def flatSk : Sk → List (Option Nat)
   | .ifs t => none :: flatSkL t
   | .ife t e => none :: flatSkL t ++ none :: flatSkL e
   | .loop w _ => if w then [none, none] else [none]
+  | .tell _ => [none]
 def flatSkL : List Sk → List (Option Nat)
   | [] => []
   | k :: ks => flatSk k ++ flatSkL ks
@@ -70,7 +72,7 @@ def lastIsExitL : List Sk → Bool
 end
 
 inductive SkCtx where
-  | top | loop | thn | thnE | els
+  | top | loop | thn | thnE | els | tell
   deriving DecidableEq, Repr
 
 def isIfNoElseEndingInExit : Sk → Bool
@@ -84,18 +86,20 @@ def classesOf (ctx : SkCtx) (fixed : List Nat) (rescanned : Bool) (ifdepth : Nat
   | .s => []
   | .x i =>
     if ctx = .loop then ["F23"]
+    else if ctx = .tell then ["F138"]
     else if fixed.contains i || (ctx = .thn && isLast) then []
     else if ctx = .els then ["F25"]
     else if ctx = .thn || ctx = .thnE then ["F126"]
     else []
   | .ifs t =>
-    (if before && !(ctx = .loop && rescanned) then ["F24"] else [])
+    (if before && !((ctx = .loop || ctx = .tell) && rescanned) then ["F24"] else [])
       ++ classesOfL .thn (fixed ++ secondToLastExit (flatSkL t)) rescanned (ifdepth + 1) false t
   | .ife t e =>
-    (if before && !(ctx = .loop && rescanned) then ["F24"] else [])
+    (if before && !((ctx = .loop || ctx = .tell) && rescanned) then ["F24"] else [])
       ++ classesOfL .thnE (fixed ++ secondToLastExit (flatSkL t ++ [none])) rescanned (ifdepth + 1) false t
       ++ classesOfL .els (fixed ++ secondToLastExit (flatSkL e)) rescanned (ifdepth + 1) false e
   | .loop _ b => classesOfL .loop [] (rescanned || ifdepth > 0) 0 false b
+  | .tell b => classesOfL .tell [] (rescanned || ifdepth > 0) 0 false b
 def classesOfL (ctx : SkCtx) (fixed : List Nat) (rescanned : Bool) (ifdepth : Nat) (before : Bool) : List Sk → List String
   | [] => []
   | [k] => classesOf ctx fixed rescanned ifdepth before true k
@@ -108,8 +112,9 @@ def dedupS : List String → List String → List String
   | [], acc => acc
   | x :: xs, acc => if acc.contains x then dedupS xs acc else dedupS xs (acc ++ [x])
 
-/-- the failure classes a handler body falls into (F23 exit repeat directly in a loop body; F24 an if after an `if … exit repeat`
-    in a list that is scanned once; F25 / F126 exit repeat in an else / then branch at a position the break detection misses) -/
+/-- the failure classes a handler body falls into (F23 exit repeat directly in a loop body; F138 directly in a tell block; F24 an if
+    after an `if … exit repeat` in a list that is scanned once; F25 / F126 exit repeat in an else / then branch at a position the break
+    detection misses) -/
 def exitClasses (body : List Stmt) : List String :=
   dedupS (classesOfL .top [] false 0 false (skOfL 0 body).1) []
 
